@@ -21,7 +21,7 @@ from datetime import UTC, datetime
 from pathlib import Path
 from typing import Any
 
-from vf.engine import dbshim
+from vf.engine import dbshim, seams
 from vf.engine.explore import Policy, Run, run_once
 from vf.engine.runner import Broken, Result
 
@@ -45,13 +45,11 @@ ASSUMPTIONS = [
 POLICY = Policy(max_iterations=400000, max_vtime=1e6)
 G: dict[str, Any] = {}
 TMP = Path(f"/dev/shm/vf-c12-{os.getpid()}")
-BASE_T = 1_700_000_000.0
+BASE_T = seams.BASE_T
 
 
 def worker_init() -> None:
     import gallia.command  # noqa: F401
-    import gallia.db.handler as dbh
-    import gallia.services.uds.ecu as ecumod
     import gallia.services.uds.server as srv
     from gallia.db.handler import DBHandler
     from gallia.services.uds.core import service
@@ -60,16 +58,7 @@ def worker_init() -> None:
     from gallia.transports.base import BaseTransport, TargetURI
 
     logging.disable(logging.CRITICAL)
-    dbh.aiosqlite = dbshim  # type: ignore[attr-defined]
-    srv.aiosqlite = dbshim  # type: ignore[attr-defined]
-
-    class VDatetime(datetime):
-        @classmethod
-        def now(cls, tz: Any = None) -> Any:  # type: ignore[override]
-            return datetime.fromtimestamp(BASE_T + asyncio.get_running_loop().time(), tz or UTC)
-
-    ecumod.datetime = VDatetime  # type: ignore[attr-defined]
-    srv.time = lambda: BASE_T + asyncio.get_running_loop().time()  # type: ignore[attr-defined]
+    seams.patch_gallia(db=True)
 
     OrigRNG = srv.RNG
     counter = {"n": 0}
@@ -248,6 +237,7 @@ def execute(item: dict[str, Any]) -> dict[str, Any]:
             pass
 
     def scenario(run: Run) -> None:
+        seams.patch_gallia(db=True)
         worker = dbshim.DbWorker()
         run.add_actor(worker)
         G["rng_counter"]["n"] = 0
